@@ -1,6 +1,7 @@
 import MorfuseModel.Lang.IntEncLemmas
 import MorfuseModel.Lang.PrecTable
 import MorfuseModel.Lang.PrecCongr
+import MorfuseModel.Lang.Desugar
 /-!
 # C03 — programs compute what the language rules say (property theorems)
 -/
@@ -79,5 +80,60 @@ open Morfuse.Lang.Prec Morfuse.Lang.PrecTable in
 example : Prec.print refLv (.bin .mul (.bin .add (.atom 1) (.atom 2)) (.bin .sub (.atom 3) (.bin .sub (.atom 4) (.atom 5))))
     = [.lp, .atom 1, .op .add, .atom 2, .rp, .op .mul, .lp, .atom 3, .op .sub, .lp, .atom 4, .op .sub, .atom 5, .rp, .rp] := by
   decide
+
+/-! ## equivalent spellings: the grammar's desugarings -/
+
+/-- **C03, compound assignment.**  `a op= b` finishes with exactly the results (state, output, flow,
+    or script error) of `a = a op b` — the tree the parser builds for it — for every operator,
+    l-value (array elements included: the index expressions are evaluated twice in both), program and state. -/
+theorem C03_desugar_compound (prog : Program) (op : BinOp) (lv : LVal) (e : Expr) (fr : Frame) (st : St)
+    (res : Res (Flow × Frame × St)) :
+    StmtRuns prog (.opassign op lv e) fr st res ↔ StmtRuns prog (.assign lv (.bin op lv.toExpr e)) fr st res :=
+  desugar_opassign prog op lv e fr st res
+
+example : StmtRuns [] (.opassign .add (.var .loc "a") (.int 5)) { locals := [("a", .int 2)] } {}
+    (.ok (.normal, { locals := [("a", .int 7)] }, {})) := ⟨by simp, 3, by decide⟩
+
+/-- **C03, `++`.**  On an integer `a++` is `a += 1`. -/
+theorem C03_desugar_incr (prog : Program) (lv : LVal) (fr : Frame) (st : St)
+    (hint : ∀ n va st1, evalExpr prog n lv.toExpr fr st = .ok (va, st1) → ∃ x, va = .int x)
+    (res : Res (Flow × Frame × St)) :
+    StmtRuns prog (.incr lv) fr st res ↔ StmtRuns prog (.opassign .add lv (.int 1)) fr st res :=
+  desugar_incr prog lv fr st hint res
+
+/-- **C03, `--`.**  On an integer `a--` is `a -= 1`. -/
+theorem C03_desugar_decr (prog : Program) (lv : LVal) (fr : Frame) (st : St)
+    (hint : ∀ n va st1, evalExpr prog n lv.toExpr fr st = .ok (va, st1) → ∃ x, va = .int x)
+    (res : Res (Flow × Frame × St)) :
+    StmtRuns prog (.decr lv) fr st res ↔ StmtRuns prog (.opassign .sub lv (.int 1)) fr st res :=
+  desugar_decr prog lv fr st hint res
+
+/-- **C03, `for`.**  `for (init; c; inc) body` finishes with exactly the results of the statement list
+    `init; While(c, body, inc)` the parser builds (`continue` in `body` reaches `inc` in both). -/
+theorem C03_desugar_for (prog : Program) (init : List Stmt) (c : Expr) (inc body : List Stmt) (fr : Frame) (st : St)
+    (res : Res (Flow × Frame × St)) :
+    StmtRuns prog (.for_ init c inc body) fr st res ↔
+      StmtRuns prog (.block (init ++ [.while_ c body inc])) fr st res :=
+  desugar_for prog init c inc body fr st res
+
+example : StmtRuns [] (.for_ [.assign (.var .loc "i") (.int 0)] (.bin .lt (.var .loc "i") (.int 2)) [.incr (.var .loc "i")] [.cont])
+    {} {} (.ok (.normal, { locals := [("i", .int 2)] }, {})) := ⟨by simp, 12, by decide⟩
+
+/-! ## the evaluator is a function of the program: fuel only decides whether it finishes -/
+
+/-- **C03, fuel monotonicity.**  A run that finished (with a result or a script error) gives the same
+    answer with any larger amount of fuel. -/
+theorem C03_fuel_mono {n m : Nat} (h : n ≤ m) (prog : Program) (label : String) (args : List Val) :
+    runProgram n prog label args ≠ .timeout → runProgram m prog label args = runProgram n prog label args :=
+  runProgram_mono h prog label args
+
+/-- **C03, determinism.**  Two finished runs of the same program from the same entry with the same
+    arguments agree, whatever fuel they were given: `Lang.Sem` assigns at most one behaviour to a program. -/
+theorem C03_sem_deterministic (n m : Nat) (prog : Program) (label : String) (args : List Val) :
+    runProgram n prog label args ≠ .timeout → runProgram m prog label args ≠ .timeout →
+    runProgram n prog label args = runProgram m prog label args :=
+  runProgram_deterministic n m prog label args
+
+example : runProgram 6 [.label "main" [], .end_ (some (.bin .add (.int 1) (.int 2)))] "main" [] ≠ .timeout := by decide
 
 end Morfuse.Props.C03
